@@ -35,6 +35,32 @@ func ruleImportNamesUnique(ctx *Ctx, rule string) {
 					}
 				}
 			}
+			// a predicate that did not exist on the reference tree and
+			// returns, on every path, the "found" result of a byName lookup
+			if c, ok := in.(*ssa.Call); ok {
+				if g := c.Call.StaticCallee(); g != nil && ssaq.IsNew(g) && len(g.Blocks) > 0 {
+					all, some := true, false
+					for _, gb := range g.Blocks {
+						ret, isRet := gb.Instrs[len(gb.Instrs)-1].(*ssa.Return)
+						if !isRet {
+							continue
+						}
+						ex, isEx := ret.Results[0].(*ssa.Extract)
+						if len(ret.Results) != 1 || !isEx || ex.Index != 1 {
+							all = false
+							continue
+						}
+						if bc, isCall := ex.Tuple.(*ssa.Call); !isCall || ssaq.StaticCalleeName(bc) != "capnpc-go.(*imports).byName" {
+							all = false
+							continue
+						}
+						some = true
+					}
+					if all && some {
+						founds[c] = true
+					}
+				}
+			}
 		}
 	}
 	var appendBlock *ssa.BasicBlock
